@@ -105,6 +105,7 @@ UNITS = {
 FS = ['--max-field-sensitivity-array-size', '600', '--object-bits', '12', '--no-sat-preprocessor']   # cbmc constant-propagates array cells only up to this size (default 64)
 HARNESSES = [
   dict(name='itembuf', unit='itembuf', harness='h_itembuf.c', cbmc=['--unwind', '600'] + FS,
+       thorough_override={'cbmc': ['--unwind', '1500'] + FS},   # thorough queries pack up to 1341 sequences into one main loop
        scenarios_quick=itembuf_scenarios([0], 3, ['4294967295'], 14) + itembuf_scenarios([3], 3, ['2'], 14),
        scenarios_thorough=itembuf_scenarios([0, 3, 4, 7], 4, ['5', '4294967294'], 12) + itembuf_scenarios([3], 5, ['1099511627779'], 14),
        desc='reservable_item_buffer<int>: every caller-contract-respecting sequence of LEN ops over {push_back, pop_front, pop_back, reserve_front, release_front, '
@@ -251,6 +252,8 @@ HARNESSES = [
        bounds={'sequences': '12 hand-picked (reserve; 0-2 puts and/or a second push successor registering; forwarder run(s); consume | release), also with a first offer refused before the reservation', 'push successor': 'accepts everything / refuses the first offer',
                'message values': 'symbolic, pairwise distinct'}, timeout=400),
   dict(name='buffer_node', unit='bufnode', harness='h_bufnode.c', cbmc=['--unwind', '40'] + FS, defines={'KIND': 0},
+       # thorough: MiniSat (cbmc's default) does not return from the second incremental call on ~10 of the 5-op sequences (400 s); cadical decides them in seconds
+       thorough_override={'cbmc': ['--unwind', '40'] + [x for x in FS if x != '--no-sat-preprocessor'] + ['--sat-solver', 'cadical']},
        scenarios_quick=bufnode_pick(BUF_QUICK, 1, ['0', '1', '2']) + bufnode_pick(BUF_QUICK[:4], 2, ['2', '5']),
        scenarios_thorough=bufnode_scenarios(4, [1, 2], ['0', '1', '2', '5'], 2) + [dict(sc, LEN=5, FROM=6 * sc['FROM']) for sc in bufnode_scenarios(4, [1], ['0', '1', '2', '7'], 1)],
        desc='buffer_node<int>, same driver: every hand-out is a buffered unreserved message (try_get never returns the reserved one), nothing twice, nothing '
